@@ -265,6 +265,23 @@ def run(prog, tier):
         if not enclosing or not all(U(w.test) == f"not {end}.is_set()" for w in enclosing):
             okw = False
             why.append("poll is not inside `while not end.is_set()` loops")
+    # the worker hands its chain back as it is: apart from the exchange handler (which installs a position and its probability) nothing
+    # in the worker stores into the chain
+    chain_ = tp.args.args[0].arg
+    for st_ in ast.walk(tp):
+        tg_ = st_.targets if isinstance(st_, ast.Assign) else [st_.target] if isinstance(st_, (ast.AugAssign, ast.AnnAssign)) else []
+        for t_ in tg_:
+            for el_ in (t_.elts if isinstance(t_, ast.Tuple) else [t_]):
+                b_ = el_
+                sub_ = False
+                while isinstance(b_, (ast.Subscript, ast.Attribute)):
+                    sub_ = sub_ or isinstance(b_, ast.Subscript)
+                    b_ = b_.value
+                if isinstance(b_, ast.Name) and b_.id == chain_ and isinstance(el_, (ast.Attribute, ast.Subscript)):
+                    in_update = any(isinstance(i_, ast.If) and "update_position" in U(i_.test) and any(x is st_ for x in ast.walk(i_)) for i_ in ast.walk(tp))
+                    if not (in_update and U(el_) == f"{chain_}.probs[-1]"):
+                        okw = False
+                        why.append(f"line {st_.lineno}: `{U(st_)[:70]}` changes the chain in the worker outside the exchange handler")
     free = {n.id for st in tp.body for n in ast.walk(st) if isinstance(n, ast.Name) and isinstance(n.ctx, ast.Load)}
     params = {a.arg for a in tp.args.args}
     assigned = {n.id for n in ast.walk(tp) if isinstance(n, ast.Name) and isinstance(n.ctx, ast.Store)}
